@@ -581,6 +581,165 @@ def gen_spec(report):
 
 
 # ----------------------------------------------------------------------------------------------
+# regex.rs: table-driven validators (tables, accepting sets, loop shape)
+# ----------------------------------------------------------------------------------------------
+
+def parse_accept(pat, fname):
+    acc = []
+    for part in pat.split("|"):
+        part = part.strip()
+        m = re.fullmatch(r"(\d+)\.\.=(\d+)", part)
+        if m:
+            acc.extend(range(int(m.group(1)), int(m.group(2)) + 1))
+            continue
+        m = re.fullmatch(r"(\d+)", part)
+        need(m, f"{fname}: unsupported accepting pattern {part!r}")
+        acc.append(int(part))
+    return acc
+
+
+def gen_dfa(report):
+    text = src(f"{SPECSRC}/regex.rs")
+    spec_text = src(f"{SPECSRC}/specification.rs")
+    regexes = {}
+    for m in re.finditer(r'Pattern\{check_fn: validate_regex_(\d+), regex: r(#?)"(.*?)"\2, max_length', spec_text):
+        regexes[int(m.group(1))] = m.group(3)
+    fns = {}
+    for m in re.finditer(r"pub\(crate\) fn validate_regex_(\d+)\(s: &\[u8\]\) -> bool \{\n(.*?)\n\}\n", text, re.S):
+        fns[int(m.group(1))] = m.group(2)
+    need(len(fns) > 0, "regex.rs: no validate_regex_k found")
+    for k in regexes:
+        need(k in fns, f"regex.rs: validate_regex_{k} named in CHARACTER_DATA does not exist")
+    tables = {}
+    for m in re.finditer(r"static REGEX_(\d+)_TABLE: \[\[u8; 256\]; (\d+)usize\] = \[\n(.*?)\n\];\n", text, re.S):
+        k, n = int(m.group(1)), int(m.group(2))
+        rows = re.findall(r"\[([^\[\]]*)\]", m.group(3))
+        need(len(rows) == n, f"regex.rs: REGEX_{k}_TABLE declares {n} rows, read {len(rows)}")
+        parsed = []
+        for r in rows:
+            cells = [int(x) for x in re.findall(r"\d+", r)]
+            need(len(cells) == 256, f"regex.rs: a row of REGEX_{k}_TABLE has {len(cells)} cells")
+            need(all(0 <= c < 256 for c in cells), f"regex.rs: REGEX_{k}_TABLE cell out of u8 range")
+            parsed.append(cells)
+        tables[k] = parsed
+    shape_ok = {}
+    table_driven = []
+    hand = []
+    for k in sorted(fns):
+        body = re.sub(r"\s+", " ", fns[k]).strip()
+        m = re.fullmatch(r"let mut state = 0; for c in s \{ state = REGEX_(\d+)_TABLE\[state as usize\]\[\*c as usize\]; "
+                         r"if state == 255 \{ return false; \} \} matches!\(state, ([0-9.=| ]+)\)", body)
+        if m and int(m.group(1)) == k and k in tables:
+            acc = parse_accept(m.group(2), "regex.rs")
+            nrows = len(tables[k])
+            need(all(a < nrows for a in acc), f"regex.rs: validate_regex_{k} accepts a state beyond its table")
+            for row in tables[k]:
+                need(all(c == 255 or c < nrows for c in row), f"regex.rs: REGEX_{k}_TABLE points to a state beyond the table")
+            table_driven.append((k, tables[k], acc))
+            shape_ok[str(k)] = True
+        else:
+            if "REGEX_" in body and "_TABLE" in body:
+                shape_ok[str(k)] = False    # uses a table but not in the modelled loop shape
+            hand.append(k)
+    mods = []
+    datamods = []
+    # known findings (KNOWN_FINDINGS.txt): a table that is KNOWN not to implement its regex is pinned by the hash of its
+    # rows + accepting set; for it the negation witness is proved instead of the certificate.  Any other table content
+    # (including a further change of a known-bad table) gets the ordinary certificate obligation.
+    known = {}
+    kf_path = os.path.join(os.path.dirname(os.path.abspath(__file__)), "..", "KNOWN_FINDINGS.txt")
+    if os.path.exists(kf_path):
+        for line in open(kf_path):
+            mk = re.match(r"known: property=C19 sig=regex(\d+):table=([0-9a-f]+):witness=([0-9a-f]+|-) ", line)
+            if mk:
+                known[(int(mk.group(1)), mk.group(2))] = mk.group(3)
+    known_bad = []
+    table_hash = {}
+    for k, rows, acc in table_driven:
+        need(k in regexes, f"specification.rs: validate_regex_{k} has no published regex")
+        packed = [sum(c << (8 * b) for b, c in enumerate(row)) for row in rows]
+        th = hashlib.sha256(json.dumps([rows, acc]).encode()).hexdigest()[:16]
+        table_hash[str(k)] = th
+        if (k, th) in known:
+            w = known[(k, th)]
+            wb = [] if w == "-" else list(bytes.fromhex(w))
+            o = [f"-- GENERATED by translator/gen.py from regex.rs (REGEX_{k}_TABLE, validate_regex_{k}) and specification.rs (its regex string)",
+                 "import AutosarVerif.Model.Regex", "set_option maxRecDepth 100000", "namespace AV.Gen",
+                 f"def dfa_{k} : Rx.Dfa where\n  rows := [\n" + ",\n".join("    " + hex(x) for x in packed) + "]\n  acc := [" + ", ".join(str(a) for a in acc) + "]",
+                 f"def regexText_{k} : List Nat := {bytes_list(regexes[k])}",
+                 "end AV.Gen"]
+            write_if_changed(f"Dfa_{k}.lean", "\n".join(o) + "\n")
+            o = [f"-- GENERATED by translator/gen.py -- KNOWN FINDING (KNOWN_FINDINGS.txt): REGEX_{k}_TABLE does not implement its regex;",
+                 "-- the negation witness is proved here instead of a certificate.",
+                 f"import AutosarVerif.Gen.Dfa_{k}", "set_option maxRecDepth 100000", "namespace AV.Gen",
+                 f"def witness_{k} : List Nat := [" + ", ".join(str(b) for b in wb) + "]",
+                 f"/-- the table accepts `witness_{k}`, the published regex does not match it -/",
+                 f"theorem known_bad_{k} : dfa_{k}.run witness_{k} = true ∧ (Rx.parseRegex regexText_{k}).map (Rx.matchD · witness_{k}) = some false := by decide +kernel",
+                 "end AV.Gen"]
+            write_if_changed(f"DfaCert_{k}.lean", "\n".join(o) + "\n")
+            mods.append(f"DfaCert_{k}")
+            datamods.append(f"Dfa_{k}")
+            known_bad.append(k)
+            continue
+        o = [f"-- GENERATED by translator/gen.py from regex.rs (REGEX_{k}_TABLE, validate_regex_{k}) and specification.rs (its regex string)",
+             "import AutosarVerif.Model.Regex", "set_option maxRecDepth 100000", "namespace AV.Gen",
+             f"def dfa_{k} : Rx.Dfa where\n  rows := [\n" + ",\n".join("    " + hex(x) for x in packed) + "]\n  acc := [" + ", ".join(str(a) for a in acc) + "]",
+             f"def regexText_{k} : List Nat := {bytes_list(regexes[k])}",
+             "end AV.Gen"]
+        write_if_changed(f"Dfa_{k}.lean", "\n".join(o) + "\n")
+        o = [f"-- GENERATED by translator/gen.py -- regenerated obligation: REGEX_{k}_TABLE accepts exactly the language of its regex",
+             f"import AutosarVerif.Gen.Dfa_{k}", "set_option maxRecDepth 100000", "namespace AV.Gen",
+             f"theorem cert_{k} : (Rx.parseRegex regexText_{k}).map (Rx.checkDfa dfa_{k}) = some true := by decide +kernel",
+             "end AV.Gen"]
+        write_if_changed(f"DfaCert_{k}.lean", "\n".join(o) + "\n")
+        mods.append(f"DfaCert_{k}")
+        datamods.append(f"Dfa_{k}")
+    ks = [k for k, _, _ in table_driven if k not in known_bad]
+    o = ["-- GENERATED by translator/gen.py -- the table-driven validators found in regex.rs and their certificates",
+         "import AutosarVerif.Model.Regex"] + [f"import AutosarVerif.Gen.{m}" for m in mods] + ["namespace AV.Gen",
+         "/-- (k, table of validate_regex_k, published regex text) -/",
+         "def tableDriven : List (Nat × Rx.Dfa × List Nat) := [" + ", ".join(f"({k}, dfa_{k}, regexText_{k})" for k in ks) + "]",
+         "theorem tableDriven_ok : ∀ e ∈ tableDriven, (Rx.parseRegex e.2.2).map (Rx.checkDfa e.2.1) = some true := by",
+         "  intro e he",
+         "  simp only [tableDriven, List.mem_cons, List.not_mem_nil, or_false] at he",
+         "  rcases he with " + " | ".join("rfl" for _ in ks),
+         ] + [f"  · exact cert_{k}" for k in ks] + [
+         "/-- table-driven validators with a recorded known finding (negation witness proved instead of a certificate) -/",
+         "def knownBad : List (Nat × Rx.Dfa × List Nat × List Nat) := [" + ", ".join(f"({k}, dfa_{k}, regexText_{k}, witness_{k})" for k in known_bad) + "]",
+         "theorem knownBad_ok : ∀ e ∈ knownBad, e.2.1.run e.2.2.2 = true ∧ (Rx.parseRegex e.2.2.1).map (Rx.matchD · e.2.2.2) = some false := by",
+         "  intro e he",
+         "  simp only [knownBad, List.mem_cons, List.not_mem_nil, or_false] at he",
+         ] + (["  rcases he with " + " | ".join("rfl" for _ in known_bad)] + [f"  · exact known_bad_{k}" for k in known_bad] if known_bad else ["  exact absurd he (by simp [knownBad])" if False else "  cases he"]) + [
+         "/-- validators that are NOT table-driven (hand-written Rust expressions) -/",
+         "def handWritten : List Nat := [" + ", ".join(str(k) for k in hand) + "]",
+         "end AV.Gen"]
+    write_if_changed("DfaAll.lean", "\n".join(o) + "\n")
+    # driver-side lookup table (no proofs; same data)
+    allk = [k for k, _, _ in table_driven]
+    o = ["-- GENERATED by translator/gen.py -- all transition tables of regex.rs, data only (imported by the driver)",
+         "import AutosarVerif.Model.Regex"] + [f"import AutosarVerif.Gen.{m}" for m in datamods] + ["namespace AV.Gen",
+         "def allDfas : List (Nat × Rx.Dfa) := [" + ", ".join(f"({k}, dfa_{k})" for k in allk) + "]",
+         "end AV.Gen"]
+    write_if_changed("DfaData.lean", "\n".join(o) + "\n")
+    # remove stale generated files of validators that are no longer table-driven
+    for fn in os.listdir(OUT):
+        mm = re.fullmatch(r"Dfa(?:Cert)?_(\d+)\.lean", fn)
+        if mm and int(mm.group(1)) not in allk:
+            os.remove(os.path.join(OUT, fn))
+    with open(os.path.join(OUT, "side_dfa.txt"), "w") as f:
+        # line format for the harness:  table <k> | known <k> <witness-hex> | hand <k>
+        for k in allk:
+            f.write(f"table {k}\n")
+        for (kk, th), w in known.items():
+            if kk in known_bad:
+                f.write(f"known {kk} {w}\n")
+        for k in hand:
+            f.write(f"hand {k}\n")
+    report["dfa"] = {"sha256": sha(f"{SPECSRC}/regex.rs"), "table_driven": [k for k, _, _ in table_driven], "hand_written": hand, "shape_ok": shape_ok, "known_bad": known_bad, "table_hash": table_hash,
+                     "states": {str(k): len(rows) for k, rows, _ in table_driven}}
+
+
+# ----------------------------------------------------------------------------------------------
 
 PARTS = {}
 
@@ -625,6 +784,7 @@ PARTS["hash"] = gen_hash
 PARTS["names"] = gen_names
 PARTS["versions"] = gen_versions
 PARTS["spec"] = gen_spec
+PARTS["dfa"] = gen_dfa
 
 if __name__ == "__main__":
     main()
